@@ -43,6 +43,10 @@ JOBS = [
 ]
 
 # ---------------- encoder side: C11 (round trip ingredients) / C12 (layout per Encodings.md) ----------------
+# the _fit / _spec_size jobs add one ensures each to the contract that c11_delta_flush_block_safe proves in full; they check only the
+# contract-level obligations (ensures, loop invariants, decreases, cuts) - the memory-safety obligations are the same program's and
+# are discharged by the _safe job
+FLUSH_LOGIC = r'^delta_encoder_flush_block\.(\d+|postcondition\.\d+|assertion\.\d+) '
 D11 = dict(overlays=['contracts/delta.ovl'], harness='harness/C11/delta.c', props=['C11', 'C12'], includes=['.', 'src'],
            extra_sources=['stubs/mem_stubs.c', 'stubs/delta_stubs.c'], wip=True)
 JOBS += [
@@ -55,12 +59,12 @@ JOBS += [
 ] + [
     dict(name=nm, entry='h_flush_block', enforce='delta_encoder_flush_block',
          replace=['write_uleb128', 'bit_width_required'], min_loop_obligations=10, defines=defs,
-         trusted=[BITPACK_STUB], timeout=1700, est_s=1400,
+         trusted=[BITPACK_STUB], timeout=1700, est_s=1400 if sel is None else 300, select=sel,
          **dict(D11, props=pr))
-    for nm, defs, pr in [
-        ('c11_delta_flush_block_safe', [], ['C11']),   # writes < capacity, reads < 128 deltas, frame, bytes written == min-delta varint + 4 + packed_bytes_needed
-        ('c11_delta_flush_block_fit', ['CQV_FLUSH_FIT=1'], ['C11']),              # every adjusted delta fits its mini-block width
-        ('c12_delta_flush_block_spec_size', ['CQV_SPEC_SIZE=1'], ['C12']),        # packed_bytes_needed == sum 32*w/8 (Encodings.md)
+    for nm, defs, pr, sel in [
+        ('c11_delta_flush_block_safe', [], ['C11'], None),   # writes < capacity, reads < 128 deltas, frame, bytes written == min-delta varint + 4 + packed_bytes_needed
+        ('c11_delta_flush_block_fit', ['CQV_FLUSH_FIT=1'], ['C11'], FLUSH_LOGIC),              # every adjusted delta fits its mini-block width
+        ('c12_delta_flush_block_spec_size', ['CQV_SPEC_SIZE=1'], ['C12'], FLUSH_LOGIC),        # packed_bytes_needed == sum 32*w/8 (Encodings.md)
     ]
 ] + [
     dict(name='c11_delta_encoder_init', entry='h_encoder_init', enforce='delta_encoder_init', loop_contracts=False,
